@@ -33,14 +33,22 @@ structure UniWF (m : Cmap) : Prop where
   keys : (AL.keys m).Nodup
   lists : ∀ p ∈ m, p.2.Nodup
 
+/-- the map `u`, if it exists, is exactly the inverse of the unicodes of content `f` -/
+def UniInv (f : String → Option GRec) (u : Option Cmap) : Prop :=
+  ∀ m, u = some m → UniWF m ∧ ∀ c n, n ∈ namesAt m c ↔ ∃ r, f n = some r ∧ c ∈ r.unicodes
+
 /-- C09: the map, once it exists, is exactly the inverse of the glyphs' unicodes. -/
-def UniOK (s : State) : Prop :=
-  ∀ m, s.uni = some m → UniWF m ∧
-    ∀ c n, n ∈ namesAt m c ↔ ∃ r, abs s n = some r ∧ c ∈ r.unicodes
+def UniOK (s : State) : Prop := UniInv (abs s) s.uni
 
 /-- valid domain: unicode lists of glyph records carry no duplicates (glifLib enforces this on
 read; the UFO specification on write) -/
 def RecsOK (s : State) : Prop := ∀ n r, abs s n = some r → r.unicodes.Nodup
+
+/-- everything the theorems need of a state -/
+structure Good (s : State) : Prop where
+  wf : WF s
+  uni : UniOK s
+  recs : RecsOK s
 
 /-- abstract update of a partial map -/
 def upd (f : String → Option GRec) (n : String) (v : Option GRec) : String → Option GRec :=
@@ -59,13 +67,53 @@ def specStep (f : String → Option GRec) : Op → Option (String → Option GRe
   | .setUnicodes n us =>
     match f n with
     | none => none
-    | some r => some (upd f n (some { r with unicodes := us }))
+    | some r => some (upd f n (some (withUnicodes r us)))
   | .edit n c i oload ofast =>
     match f n with
     | none => none
-    | some r => some (upd f n (some { r with comps := c, image := i, outlineLoaded := oload, outlineFast := ofast }))
+    | some r => some (upd f n (some (withRest r c i oload ofast)))
   | .save => some f
   | .touchUni => some f
+
+/-- domain of the property: inserted/assigned unicode lists carry no duplicates and a rename
+never targets a name that is present (the code would silently overwrite that glyph) -/
+def OpOK (f : String → Option GRec) : Op → Prop
+  | .insert _ r => r.unicodes.Nodup
+  | .setUnicodes _ us => us.Nodup
+  | .rename o n => o = n ∨ f n = none
+  | _ => True
+
+instance (f : String → Option GRec) : (op : Op) → Decidable (OpOK f op)
+  | .insert _ r => inferInstanceAs (Decidable r.unicodes.Nodup)
+  | .setUnicodes _ us => inferInstanceAs (Decidable us.Nodup)
+  | .rename o n => inferInstanceAs (Decidable (o = n ∨ f n = none))
+  | .get _ => isTrue trivial
+  | .new _ => isTrue trivial
+  | .delete _ => isTrue trivial
+  | .edit .. => isTrue trivial
+  | .save => isTrue trivial
+  | .touchUni => isTrue trivial
+
+/-- a rejected operation leaves the content as it was -/
+def specTotal (f : String → Option GRec) (op : Op) : String → Option GRec := (specStep f op).getD f
+
+def specRun (f : String → Option GRec) (ops : List Op) : String → Option GRec := ops.foldl specTotal f
+
+def OpsOK : (String → Option GRec) → List Op → Prop
+  | _, [] => True
+  | f, op :: ops => OpOK f op ∧ OpsOK (specTotal f op) ops
+
+instance decOpsOK : (f : String → Option GRec) → (ops : List Op) → Decidable (OpsOK f ops)
+  | _, [] => isTrue trivial
+  | f, op :: ops =>
+    match (inferInstance : Decidable (OpOK f op)), decOpsOK (specTotal f op) ops with
+    | isTrue a, isTrue b => isTrue ⟨a, b⟩
+    | isFalse a, _ => isFalse (fun h => a h.1)
+    | _, isFalse b => isFalse (fun h => b h.2)
+
+/-- both outline criteria agree on every record (false for glyphs whose contours hold only
+move / off-curve points: finding F33) -/
+def Coherent (f : String → Option GRec) : Prop := ∀ n r, f n = some r → r.outlineLoaded = r.outlineFast
 
 end Layer
 end DefconModel
